@@ -161,7 +161,7 @@ def run_decomp(kind, shape, spec, seed, **kw):
         return [shp(core)] + [shp(f) for f in factors], out
     if kind == "DCp":
         fn = {"parafac": D.parafac, "non_negative_parafac": D.non_negative_parafac,
-              "non_negative_parafac_hals": D.non_negative_parafac_hals}[kw.get("fn", "parafac")]
+              "non_negative_parafac_hals": D.non_negative_parafac_hals}[kw.get("driver", "parafac")]
         out = fn(np.abs(X) + 0.1, spec, n_iter_max=kw.get("n_iter_max", 1), init=kw.get("init", "random"), random_state=seed)
         return [shp(out.weights)] + [shp(f) for f in out.factors], out
     raise KeyError(kind)
@@ -256,7 +256,7 @@ def gen_cases(tier, rng):
                     for init in ("random", "svd"):
                         if quick and init == "svd" and fn != "parafac":
                             continue
-                        yield dict(kind="DCp", shape=s, spec=sp, kw=dict(fn=fn, init=init, n_iter_max=1))
+                        yield dict(kind="DCp", shape=s, spec=sp, kw=dict(driver=fn, init=init, n_iter_max=1))
         if prod(s) <= 200:
             for sp in [1, 2, (1,) + (2,) * (n - 1) + (1,), (2,) + (1,) * (n - 1) + (2,)]:
                 yield dict(kind="DTrAls", shape=s, spec=sp, kw=dict(n_iter_max=1))
@@ -343,6 +343,36 @@ def op_lit(case, c):
     if kind == "DCmtf":
         return f"(DCmtf {C.nat_list(list(s[0]))} {C.nat(s[1])} {pl})"
     raise KeyError(kind)
+
+
+def zero_rank(case):
+    """does the implementation's own validator turn the spec into a rank containing 0? (input filter only)"""
+    from tensorly import cp_tensor, tucker_tensor, tt_tensor, tr_tensor, tt_matrix
+    kind, s, spec = case["kind"], case["shape"], case["spec"]
+    spec = list(spec) if isinstance(spec, tuple) else spec
+    if isinstance(spec, int):
+        return spec == 0
+    try:
+        import warnings
+        with warnings.catch_warnings():
+            warnings.simplefilter("ignore")
+            if kind in ("DCp",):
+                r = [cp_tensor.validate_cp_rank(tuple(s), spec)]
+            elif kind == "DCmtf":
+                r = [cp_tensor.validate_cp_rank(tuple(s[0]), spec)]
+            elif kind == "DTucker":
+                r = tucker_tensor.validate_tucker_rank(tuple(s), spec)
+            elif kind == "DTt":
+                r = tt_tensor.validate_tt_rank(tuple(s), spec)
+            elif kind == "DTtm":
+                r = tt_matrix.validate_tt_matrix_rank(tuple(s), spec)
+            elif kind in ("DTr", "DTrAls"):
+                r = tr_tensor.validate_tr_rank(tuple(s), spec)
+            else:
+                return False
+        return any(int(x) == 0 for x in r)
+    except Exception:
+        return False
 
 
 ENTRY = {"VCp": "tensorly.cp_tensor.validate_cp_rank", "VTucker": "tensorly.tucker_tensor.validate_tucker_rank",
@@ -514,7 +544,10 @@ def run_norm_case(nc):
         def cb(cp, err):
             states.append((np.array(cp.weights, copy=True), [np.array(f, copy=True) for f in cp.factors]))
         kw["callback"] = cb
+        kw["return_errors"] = True      # parafac needs tol or return_errors for the error it hands to the callback
     st, out = C.call_impl(fn, X, R, **kw)
+    if st == "ok" and "callback" in kw:
+        out = out[0]
     return st, out, (states[-1] if states else None), X
 
 
@@ -598,12 +631,18 @@ def run(chk):
             skipped += 1
             continue
         pyspec = list(spec) if isinstance(spec, tuple) else spec
+        if kind.startswith("D") and zero_rank(case):
+            skipped += 1          # a validated rank of 0 is outside the model (the validators themselves are compared on it)
+            continue
         if kind.startswith("V"):
             st, v = C.call_impl(obs_validator, kind, s, pyspec, **kw)
             shapes, out = (v, None) if st == "ok" else (None, None)
         else:
             st, v = C.call_impl(run_decomp, kind, s, pyspec, case["seed"], **kw)
             shapes, out = v if st == "ok" else (None, None)
+        if st != "ok" and str(v).startswith("LinAlgError"):
+            skipped += 1          # numerically singular sub-problem (data dependent), not a structural outcome
+            continue
         cid = len(cases)
         cases.append(f"({cid}%nat, {op_lit(case, c)}, {shapes_lit(st, shapes)})")
         meta.append(case)
